@@ -578,7 +578,7 @@ struct Gen<'a> {
     env: Env,
     h: usize,
     w: usize,
-    free: bool, // keep surfaces overlap-free
+    mode: u8,   // 0: keep surfaces overlap-free, 1: wide characters may hide one another, 2: any overlap
     ood: bool,  // allow zero-width characters and a wide character in the last column
 }
 
@@ -617,6 +617,17 @@ impl<'a> Gen<'a> {
         let c = rng.below(w as u64) as usize;
         match rng.below(19) {
             0 | 1 => s[r][c] = self.narrow(rng),
+            18 if self.mode != 0 => {
+                // a wide character directly before or behind another one
+                let ws = self.cells_where(s, |x| self.is_wide(x));
+                if !ws.is_empty() {
+                    let (r, c) = *rng.pick(&ws);
+                    let c2 = if rng.chance(1, 2) { c + 1 } else { c.saturating_sub(1) };
+                    if c2 + 2 <= w {
+                        s[r][c2] = C { k: 0, f: self.face(rng), v: *rng.pick(&WIDE) };
+                    }
+                }
+            }
             2 | 3 => {
                 // a wide character
                 if w >= 2 || self.ood {
@@ -706,7 +717,9 @@ impl<'a> Gen<'a> {
         for _ in 0..n {
             let before = s.clone();
             self.edit(rng, &mut s);
-            let bad = (self.free && !overlap_free(&mut self.env, self.p, &s, self.h, self.w))
+            let k = overlap_kinds(&mut self.env, self.p, &s, self.h, self.w);
+            let bad = (self.mode == 0 && k != (false, false, false))
+                || (self.mode == 1 && (k.0 || k.1))
                 || (!self.ood && !in_domain(&mut self.env, self.p, &s, self.h, self.w));
             if bad {
                 s = before;
@@ -719,9 +732,13 @@ impl<'a> Gen<'a> {
 fn gen_history(rng: &mut Rng, p: &Pools) -> Value {
     let h = if rng.chance(1, 3) { 1 + rng.below(2) as usize } else { 1 + rng.below(6) as usize };
     let w = if rng.chance(1, 4) { 1 + rng.below(3) as usize } else { 1 + rng.below(12) as usize };
-    let free = !rng.chance(1, 8);
+    let mode = match rng.below(8) {
+        0 => 2,
+        1 => 1,
+        _ => 0,
+    };
     let ood = rng.chance(1, 16);
-    let mut g = Gen { p, env: Env::new(p, h, w), h, w, free, ood };
+    let mut g = Gen { p, env: Env::new(p, h, w), h, w, mode, ood };
     let n = 1 + rng.below(12) as usize;
     let mut ops: Vec<Op> = vec![];
     let mut prev = blank_surf(h, w);
